@@ -4,6 +4,7 @@ import sys
 
 sys.path.insert(0, os.path.dirname(os.path.dirname(os.path.abspath(__file__))))
 import storeprop  # noqa: E402
+import core  # noqa: E402
 
 ID = "C03"
 THEOREMS = ["c03_dup_refused", "c03_fresh_id", "c03_by_position", "c03_position_out_of_range", "c03_by_name",
@@ -96,7 +97,16 @@ def run(ctx):
     # ids SUPPLIED by the caller (oid=): ids are numbers in the model, which cannot express an ill-formed id text -
     # implementation only: 13 texts x the 3 calls that take an oid
     recs = ctx.run_impl("impl_oids.py", {})
-    bad = [r for r in recs if r["problems"]]
+    kf = {e.get("match"): e for e in core.load_known(ID)}
+
+    def dup_known(r):
+        # known finding: a supplied id that is already in use is taken over as it is (two entities, one id)
+        return ("supplied_duplicate_id" in kf and r["oid"] == "an id another entity of the file already has"
+                and all(p == "the new entity's id equals another id of the file" for p in r["problems"]))
+    hits = [r for r in recs if r["problems"] and dup_known(r)]
+    if hits:
+        ctx.known_hits.append("%s (%d of the 3 calls that take an oid in this run)" % (kf["supplied_duplicate_id"]["what"], len(hits)))
+    bad = [r for r in recs if r["problems"] and not dup_known(r)]
     ctx.coverage["supplied_ids"] = len(recs)
     ctx.coverage["supplied_id_failures"] = len(bad)
     ctx.coverage["evaluations"] += len(recs)
